@@ -7,7 +7,7 @@ import sys, os, json, subprocess, tempfile, shutil, re, glob
 VERIF = os.path.dirname(os.path.dirname(os.path.abspath(__file__)))
 UNFIX = {  # reverse patch of a fix -> checks that must report its defect again
     'da78f89': ['C10'], 'd54b6cb': ['C11', 'C13', 'C09'], '99e5226': ['C11'], '79b8c1c': ['C12'], '53f3075': ['C12', 'C03'], '59c67bf': ['C14'], '563aee9': ['C16'],
-    'fe5bde1': ['C15'], '32e5415': ['C15'], '1d88b0a': ['C15'], '78a0ade': ['C15/thorough'],
+    'fe5bde1': ['C15'], '32e5415': ['C15'], '1d88b0a': ['C15'], '78a0ade': ['C15'],
 }
 
 
